@@ -255,11 +255,35 @@ func withWatchdog(f func()) (hung bool, confirmed bool) {
 	case <-done:
 		return false, false
 	case <-time.After(10 * time.Second):
-		buf := make([]byte, 1<<18)
-		n := runtime.Stack(buf, true)
-		d := string(buf[:n])
-		return true, strings.Contains(d, "sync.(*Mutex).Lock") || strings.Contains(d, "sync.Mutex.Lock") || strings.Contains(d, "semacquire")
 	}
+	// not back after 10 s. The witness of a hang is a goroutine that is parked on a lock now AND still parked on it five
+	// seconds later (on a loaded machine goroutines wait for locks all the time - briefly)
+	parked := func() map[string]bool {
+		buf := make([]byte, 1<<18)
+		d := string(buf[:runtime.Stack(buf, true)])
+		ids := map[string]bool{}
+		for _, g := range strings.Split(d, "\n\n") {
+			if !(strings.Contains(g, "sync.(*Mutex).Lock") || strings.Contains(g, "sync.Mutex.Lock") || strings.Contains(g, "sync.(*RWMutex)") || strings.Contains(g, "semacquire")) {
+				continue
+			}
+			if i := strings.Index(g, " ["); i > 0 {
+				ids[g[:i]] = true // "goroutine 123"
+			}
+		}
+		return ids
+	}
+	first := parked()
+	select {
+	case <-done:
+		return false, false
+	case <-time.After(5 * time.Second):
+	}
+	for id := range parked() {
+		if first[id] {
+			return true, true
+		}
+	}
+	return true, false
 }
 
 func c18exec(seq []tcall, impl c18impl, seqNo int, res *core.CaseResult, verbose bool) {
